@@ -412,7 +412,7 @@ func (r *Reader) seek(rec record) (*tableIter, error) {
 	}
 
 	tabIter, err := r.start(rec.typ(), false)
-	if err != nil {
+	if err != nil || tabIter == nil {
 		return nil, err
 	}
 
@@ -426,7 +426,7 @@ func (r *Reader) seek(rec record) (*tableIter, error) {
 // seekIndexed seeks to the `want` record, using its index.
 func (r *Reader) seekIndexed(want record) (*tableIter, error) {
 	idxIter, err := r.start(want.typ(), true)
-	if err != nil {
+	if err != nil || idxIter == nil {
 		return nil, err
 	}
 
@@ -453,6 +453,9 @@ func (r *Reader) seekIndexed(want record) (*tableIter, error) {
 		if err != nil {
 			return nil, err
 		}
+		if tabIter == nil {
+			return nil, fmtError
+		}
 
 		err = tabIter.bi.seek(want.key())
 		if err != nil {
@@ -464,7 +467,7 @@ func (r *Reader) seekIndexed(want record) (*tableIter, error) {
 		}
 
 		if tabIter.typ != blockTypeIndex {
-			log.Panicf("got type %c following indexes", tabIter.typ)
+			return nil, fmtError
 		}
 
 		idxIter = tabIter
@@ -585,12 +588,21 @@ func (i *indexedTableRefIter) Next(rec record) (bool, error) {
 // RefsFor iterates over refs that point to `oid`.
 func (r *Reader) RefsFor(oid []byte) (*Iterator, error) {
 	if r.offsets[blockTypeObj].Present {
-		return r.refsForIndexed(oid)
+		it, err := r.refsForIndexed(oid)
+		if it != nil || err != nil {
+			return it, err
+		}
+		// The index has no position list for this object (it
+		// was omitted because it did not fit): scan all refs.
 	}
 
 	it, err := r.start(blockTypeRef, false)
 	if err != nil {
 		return nil, err
+	}
+	if it == nil {
+		// no ref section
+		return &Iterator{&emptyIterator{}}, nil
 	}
 	return &Iterator{&filteringRefIterator{
 		tab:         r,
@@ -601,11 +613,18 @@ func (r *Reader) RefsFor(oid []byte) (*Iterator, error) {
 }
 
 func (r *Reader) refsForIndexed(oid []byte) (*Iterator, error) {
+	if len(oid) < r.objectIDLen {
+		return nil, fmtError
+	}
 	want := &objRecord{HashPrefix: oid[:r.objectIDLen]}
 
 	it, err := r.seek(want)
 	if err != nil {
 		return nil, err
+	}
+	if it == nil {
+		// oid is beyond the last indexed object
+		return &Iterator{&emptyIterator{}}, nil
 	}
 
 	got := objRecord{}
@@ -615,6 +634,10 @@ func (r *Reader) refsForIndexed(oid []byte) (*Iterator, error) {
 	}
 	if !ok || got.key() != want.key() {
 		return &Iterator{&emptyIterator{}}, nil
+	}
+
+	if len(got.Offsets) == 0 {
+		return nil, nil
 	}
 
 	tr := &indexedTableRefIter{
